@@ -176,7 +176,7 @@ CLAIMED = {
              'Base256 length rewrite -- and an analysis of the first codeword a header-less stream can start with); C16_detection -- '
              'use_macro_if_possible is total and strips exactly the enveloped messages, leaving the body both as data and as the slice backup() '
              're-reads; C16_stream_shape; C16_decoder_macro05/06 -- a Macro codeword in first position makes the decoder return header ++ body ++ '
-             'trailer; C16_decoder_fnc1; C16_macro_roundtrip_ascii_only -- for the ASCII-only configuration the lossless part is a theorem too (every enveloped message, every list). PARTIAL: that the body itself survives the mode encoders and the decoder (the lossless part) is the '
+             'trailer; C16_decoder_fnc1; C16_macro_roundtrip_ascii_only / C16_fnc1_roundtrip_ascii_only and C16_macro_roundtrip_ab / C16_fnc1_roundtrip_ab -- for every mode set within {ASCII, Base256}, whatever plan the optimiser returns, the lossless part is a theorem too (every enveloped message, every FNC1 start, every list: header codeword + legal script spelling the body + padding; the decoder returns the message). PARTIAL: that the body itself survives the mode encoders and the decoder (the lossless part) is the '
              'data-layer round trip and is decided per case: envelope generator (intact / damaged / missing header x trailer x body lengths 0..40) '
              'x macro x FNC1 x mode subsets, encoded and decoded by implementation and model. Four macro defects of the pinned tree were repaired.',
         design_ref='DESIGN.md 6/C16',
